@@ -56,6 +56,14 @@ func (p Polygon) Difference(p2 Polygonal) Polygonal {
 }
 
 func (p Polygon) op(p2 Polygonal, op polyclip.Op) Polygon {
+	if op == polyclip.CLIPLINE && len(p) == 1 && comesBack(p[0]) {
+		// The clipper joins the two ends of a line that ends where it started
+		// (exactly, or to within the tolerance it identifies points with) and
+		// takes the line for a ring, and rings are not part of what it returns
+		// for a line: such a line is clipped in two parts.
+		n := len(p[0])
+		return append(Polygon{p[0][:n/2+1]}.op(p2, op), Polygon{p[0][n/2:]}.op(p2, op)...)
+	}
 	pp := p.toPolyClip()
 	var pp2 polyclip.Polygon
 	for _, pp2x := range p2.Polygons() {
